@@ -6,7 +6,7 @@ from ..facts import AnchorMissing
 from ..guards import analysis
 from ..sym import Sym
 from ..terms import strip, cname
-from .common import check_accessors, int_conversion_ranges, ranges_of
+from .common import check_accessors, int_conversion_ranges, ranges_of, check_lookup
 
 LEVEL = "other"
 V3 = "alpha_g_detector::alpha16::AdcV3Packet"
@@ -28,7 +28,7 @@ def run(prog, tier, res):
     R2 = res.rule("C02.R2", "every field is the big-endian value at its documented offset (both Ok sites)", 26)
     R3 = res.rule("C02.R3", "accept predicate equals the decision table (short form: 2 cases; full form: 12 cases)", 14)
     R4 = res.rule("C02.R4", "accessors return their field; AdcPacket wrappers forward", 30)
-    R5 = res.rule("C02.R5", "id conversions accept exactly module 0..=7, A16 0..=15, A32 0..=31 and store the value", 3)
+    R5 = res.rule("C02.R5", "id conversions accept exactly module 0..=7, A16 0..=15, A32 0..=31 and store the value; MAC lookup compares the whole 6-byte address against the board table", 4)
 
     tabs, an, sy = accept.accept_tables(prog, FN, alias=alias)
     body = an.body
@@ -139,6 +139,8 @@ def run(prog, tier, res):
         else:
             res.violate(R5, fn, "range", "conversion accepts %s (stores %s), spec says %s%s" % (got, stored, want, "; unrecognised guards %s" % unknown[:2] if unknown else ""), prog.bodies[fn].where())
 
+    check_lookup(prog, res, R5, "<alpha_g_detector::alpha16::BoardId as std::convert::TryFrom<[u8; 6]>>::try_from",
+                 "alpha_g_detector::alpha16::ALPHA16BOARDS", 1, 2)
     # ---------------------------------------------------------------- accessors
     check_accessors(prog, res, R4, V3, WRAP, names,
                     accessor_of={"suppression_enabled": "is_suppression_enabled"},
